@@ -46,7 +46,7 @@ var _ = conv.LS{}
 func intp(v int) *int { return &v }
 
 func mkS(set int) ms.S {
-	s := ms.S{A: 11, B: 12, C: "c-src", D: 14, N: ms.Nest{X: 21, Y: 22, Z: "nz-src", In: ms.Inner{W: 23, V: 24}}, Base: ms.Base{E1: 41, E2: "e2-src"}, Q: 51, R: "r-src", L: []int{71, 72, 73}, M: map[string]int{"k1": 81, "k2": 82}}
+	s := ms.S{A: 11, B: 12, C: "c-src", D: 14, N: ms.Nest{X: 21, Y: 22, Z: "nz-src", In: ms.Inner{W: 23, V: 24}}, Base: ms.Base{E1: 41, E2: "e2-src"}, Q: 51, R: "r-src", L: []int{71, 72, 73}, M: map[string]int{"k1": 81, "k2": 82}, L2: []int{91, 92, 93}}
 	if set == 0 {
 		s.P = &ms.Nest{X: 31, Y: 32, Z: "pz-src", In: ms.Inner{W: 33, V: 34}}
 	}
@@ -54,7 +54,7 @@ func mkS(set int) ms.S {
 }
 
 func mkLS(set int) conv.LS {
-	s := conv.LS{A: 11, B: 12, C: "c-src", D: 14, N: ms.Nest{X: 21, Y: 22, Z: "nz-src", In: ms.Inner{W: 23, V: 24}}, Base: ms.Base{E1: 41, E2: "e2-src"}, Q: 51, R: "r-src", L: []int{71, 72, 73}, M: map[string]int{"k1": 81, "k2": 82}}
+	s := conv.LS{A: 11, B: 12, C: "c-src", D: 14, N: ms.Nest{X: 21, Y: 22, Z: "nz-src", In: ms.Inner{W: 23, V: 24}}, Base: ms.Base{E1: 41, E2: "e2-src"}, Q: 51, R: "r-src", L: []int{71, 72, 73}, M: map[string]int{"k1": 81, "k2": 82}, L2: []int{91, 92, 93}}
 	if set == 0 {
 		s.P = &ms.Nest{X: 31, Y: 32, Z: "pz-src", In: ms.Inner{W: 33, V: 34}}
 	}
@@ -62,11 +62,11 @@ func mkLS(set int) conv.LS {
 }
 
 func mkD() md.D {
-	return md.D{A: "pre-A", B: 901, C: "pre-C", D: "pre-D", N: md.Nest{X: "pre-NX", Y: 902, Z: "pre-NZ", In: md.Inner{W: "pre-NW", V: 905}}, P: &md.Nest{X: "pre-PX", Y: 904, Z: "pre-PZ"}, Base: md.Base{E1: "pre-E1", E2: "pre-E2"}, Q: 903, R: "pre-R", L: []string{"pre-L"}, M: map[string]string{"pre": "M"}, G: 907}
+	return md.D{A: "pre-A", B: 901, C: "pre-C", D: "pre-D", N: md.Nest{X: "pre-NX", Y: 902, Z: "pre-NZ", In: md.Inner{W: "pre-NW", V: 905}}, P: &md.Nest{X: "pre-PX", Y: 904, Z: "pre-PZ"}, Base: md.Base{E1: "pre-E1", E2: "pre-E2"}, Q: 903, R: "pre-R", L: []string{"pre-L"}, M: map[string]string{"pre": "M"}, G: 907, L2: []int64{908}}
 }
 
 func mkLD() conv.LD {
-	return conv.LD{A: "pre-A", B: 901, C: "pre-C", D: "pre-D", N: md.Nest{X: "pre-NX", Y: 902, Z: "pre-NZ", In: md.Inner{W: "pre-NW", V: 905}}, P: &md.Nest{X: "pre-PX", Y: 904, Z: "pre-PZ"}, Base: md.Base{E1: "pre-E1", E2: "pre-E2"}, Q: 903, R: "pre-R", L: []string{"pre-L"}, M: map[string]string{"pre": "M"}, G: 907}
+	return conv.LD{A: "pre-A", B: 901, C: "pre-C", D: "pre-D", N: md.Nest{X: "pre-NX", Y: 902, Z: "pre-NZ", In: md.Inner{W: "pre-NW", V: 905}}, P: &md.Nest{X: "pre-PX", Y: 904, Z: "pre-PZ"}, Base: md.Base{E1: "pre-E1", E2: "pre-E2"}, Q: 903, R: "pre-R", L: []string{"pre-L"}, M: map[string]string{"pre": "M"}, G: 907, L2: []int64{908}}
 }
 
 `)
